@@ -85,17 +85,29 @@ def parse_recording(text):
     finally:
         pe.Lexer = old
     kinds = {}
+    firsts = {}
     for typ, pos in _recording_cls.log:
         if typ in ('DIV', 'DIVEQUAL', 'REGEX'):
             kinds[pos] = typ          # the last decision for an offset wins
+            firsts.setdefault(pos, typ)
     _recording_cls.log = None
+    parse_recording.firsts = firsts
     return out, kinds
 
 
 def judge(case):
     """worker: (text, dictated tree, [(offset, dictated slash kind)])"""
-    text, exp, slashes = case
+    text, exp, slashes = case[:3]
     out, kinds = parse_recording(text)
+    if len(case) > 3:
+        # conformance with the implementation model (SlashImpl.tla): first
+        # and final reading of every slash as the parser was handed them
+        firsts = parse_recording.firsts
+        rd = {'DIV': 'div', 'DIVEQUAL': 'div', 'REGEX': 'regex', None: None}
+        seen = [[off, rd[firsts.get(off)], rd[kinds.get(off)]]
+                for off, _ in slashes]
+        judge.drift = seen != case[3]
+        judge.seen = seen
     if out[0] != 'ok':
         return (out[0], out[1])
     d = project.first_diff(exp, out[1])
@@ -106,6 +118,12 @@ def judge(case):
         if got != want:
             return ('slash', off, want, got)
     return None
+
+
+def judge_with_model(case):
+    """judge + (drift?, what was seen) against the SlashImpl readings"""
+    r = judge(case)
+    return r, judge.drift, judge.seen
 
 
 def judge_reject(text):
